@@ -520,7 +520,7 @@ SPEC = Spec(
     prop_id="C20",
     modules=["GenjaxVerif.Props.C20"],
     theorems=[
-        "GenjaxVerif.MaskModel.C20_flagop_tables", "GenjaxVerif.MaskModel.C20_flagop_concreteness",
+        "GenjaxVerif.MaskModel.C20_flagop_tables", "GenjaxVerif.MaskModel.C20_flagop_concreteness", "GenjaxVerif.MaskModel.C20_flagop_algebra",
         "GenjaxVerif.MaskModel.C20_flagop_mode_invariance", "GenjaxVerif.MaskModel.C20_flagop_vec",
         "GenjaxVerif.MaskModel.C20_where", "GenjaxVerif.MaskModel.C20_where_vec", "GenjaxVerif.MaskModel.C20_cond",
         "GenjaxVerif.MaskModel.C20_treeChoose_mod", "GenjaxVerif.MaskModel.C20_treeChoose_inrange",
